@@ -44,6 +44,7 @@ class Monitor:
     def reset(self, world, max_steps=4000):
         self.active = True
         self.now = 0  # time of the event being handled / last clock value (us)
+        self.exact_runtimes = not getattr(world["flags"], "runtime_variance", 0)
         self.seq = 0
         self.max_steps = max_steps
         self.workers = {}  # id(worker obj) -> shadow
@@ -54,6 +55,7 @@ class Monitor:
                 "tasks": {},  # task key -> (demand dict, batch key or None)
                 "batches": {},  # batch key -> {"demand":..., "members": set()}
                 "profiles": {},  # profile name -> demand
+                "expected_end": {},  # task key -> start + runtime (exact runtimes only)
                 "obj": winfo["obj"],
             }
         self.resident = {}  # task key -> worker name
@@ -127,9 +129,29 @@ class Monitor:
                 )
 
     def fits(self, sh, demand, batch_key=None):
+        """Can the worker hold `demand` now?  Tasks whose execution ends at or before `now` do not count: a resource
+        freed at t must be reusable at t, whatever order the same-microsecond events are handled in."""
         if batch_key is not None and batch_key in sh["batches"]:
-            return True
-        occ = self.occupancy(sh)
+            # joining a resident batch is free - unless every member ends at `now` (the batch may already be dissolved)
+            members = [k for k, (_d, b) in sh["tasks"].items() if b == batch_key]
+            if any(sh["expected_end"].get(k) is None or sh["expected_end"][k] > self.now for k in members):
+                return True
+        occ = {}
+        done_batches = set()
+        for k, (d, bkey) in sh["tasks"].items():
+            end = sh["expected_end"].get(k)
+            if end is not None and end <= self.now:
+                continue
+            if bkey is None:
+                for t, q in d.items():
+                    occ[t] = occ.get(t, 0) + q
+            elif bkey not in done_batches:
+                done_batches.add(bkey)
+                for t, q in d.items():
+                    occ[t] = occ.get(t, 0) + q
+        for d in sh["profiles"].values():
+            for t, q in d.items():
+                occ[t] = occ.get(t, 0) + q
         return all(occ.get(t, 0) + q <= sh["capacity"].get(t, 0) for t, q in demand.items())
 
     def finished(self, key):
@@ -183,6 +205,8 @@ def install():
             sh["tasks"][k] = (demand, bkey)
         else:
             sh["tasks"][k] = (demand, None)
+        # with exact runtimes the task must leave at start + runtime, whatever the order of same-time events
+        sh["expected_end"][k] = (MON.now + us(execution_strategy.runtime)) if MON.exact_runtimes else None
         if k in MON.resident and MON.resident[k] != sh["name"]:
             MON.ledger_violations.append(("two_workers", f"task {k} placed on {sh['name']} while resident on {MON.resident[k]}"))
         MON.resident[k] = sh["name"]
@@ -201,6 +225,7 @@ def install():
         r = o_remove(self, current_time, task)
         k = tkey(task)
         ent = sh["tasks"].pop(k, None)
+        sh["expected_end"].pop(k, None)
         if ent is not None and ent[1] is not None:
             b = sh["batches"].get(ent[1])
             if b is not None:
@@ -370,6 +395,8 @@ def install():
         kinds = [row.split(",")[1] for row in new_rows if "," in row]
         if "TASK_NOT_READY" in kinds:
             MON.n_deferrals["TASK_NOT_READY"] += 1
+            if task.terminal and tg is not None and any(p.state.name == "CANCELLED" for p in tg.get_parents(task)):
+                MON.n_deferrals["JOIN_WAITS_WITH_CANCELLED_PARENT"] = MON.n_deferrals.get("JOIN_WAITS_WITH_CANCELLED_PARENT", 0) + 1
             if parents_ok and state_before == "SCHEDULED":
                 MON.deferrals.append({"kind": "TASK_NOT_READY", "task": k, "time": MON.now, "parents": dict(zip(parents, done))})
         if "WORKER_NOT_READY" in kinds:
